@@ -64,9 +64,23 @@ func c17Isolate(c *core.Ctx, r *core.Reporter) {
 				continue
 			}
 			key := rootName(fn) + "/" + what
-			if fn.Parent() == nil {
-				r.Bad(key, ci.Pos(), "hook %s is called directly in %s, not inside a recovering function literal: a panic in the hook takes down the request", what, core.N(fn))
-				continue
+			named := fn.Parent() == nil
+			if named {
+				// the per-extension literal turned into a named function: same obligations (recover deferred at entry,
+				// error recorded, run once per iteration of its callers' loops); reported under the function that owns it
+				key = core.FuncKey(fn) + "/" + what
+				hasGuard := false
+				for _, d := range core.Defers(fn) {
+					if d.Block() == fn.Blocks[0] && core.InstrDominates(d, ci) {
+						if g := core.ClosureFn(d.Call.Value); g != nil && core.CallsRecover(g) {
+							hasGuard = true
+						}
+					}
+				}
+				if !hasGuard {
+					r.Bad(key, ci.Pos(), "hook %s is called directly in %s, not inside a recovering function literal: a panic in the hook takes down the request", what, core.N(fn))
+					continue
+				}
 			}
 			// fn's entry block must defer a recovering handler before the hook call
 			var guard *ssa.Defer
@@ -93,6 +107,21 @@ func c17Isolate(c *core.Ctx, r *core.Reporter) {
 			for _, pin := range closureUses(fn) {
 				if core.InAnyLoop(pin.Block()) {
 					perIter = true
+				}
+			}
+			if named {
+				perIter = true
+				nCalls := 0
+				for _, caller := range c.LibFuncs() {
+					for _, site := range core.CallsTo(caller, fn, false) {
+						nCalls++
+						if !core.InAnyLoop(site.Block()) {
+							perIter = false
+						}
+					}
+				}
+				if nCalls == 0 {
+					perIter = false
 				}
 			}
 			if !perIter {
@@ -222,11 +251,15 @@ func handlerUses(fn *ssa.Function, start *ssa.Call) []handlerUse {
 			}
 		}
 	}
+	if h == nil && isFunc(start.Type()) {
+		h = start // a helper that starts the phase and hands back the finish handler as its only result
+	}
 	if h == nil {
 		return nil
 	}
 	var uses []handlerUse
-	// direct uses: call/defer whose callee value originates in h
+	// direct uses: call/defer whose callee value originates in h, or which hands h to a library function that invokes
+	// the corresponding parameter
 	core.Instrs(fn, func(in ssa.Instruction) {
 		ci, ok := in.(ssa.CallInstruction)
 		if !ok || ci.Common().IsInvoke() {
@@ -236,6 +269,16 @@ func handlerUses(fn *ssa.Function, start *ssa.Call) []handlerUse {
 			if o == h {
 				_, isDefer := in.(*ssa.Defer)
 				uses = append(uses, handlerUse{in, isDefer})
+			}
+		}
+		if cal := ci.Common().StaticCallee(); cal != nil && len(cal.Blocks) > 0 {
+			for i, a := range ci.Common().Args {
+				for _, o := range core.Origins(a) {
+					if o == h && invokesParam(cal, i) {
+						_, isDefer := in.(*ssa.Defer)
+						uses = append(uses, handlerUse{in, isDefer})
+					}
+				}
 			}
 		}
 	})
@@ -258,6 +301,15 @@ func handlerUses(fn *ssa.Function, start *ssa.Call) []handlerUse {
 						if ci, ok := ur.(ssa.CallInstruction); ok && ci.Common().Value == u {
 							_, isDefer := ur.(*ssa.Defer)
 							uses = append(uses, handlerUse{ur, isDefer})
+						} else if ok {
+							if cal := ci.Common().StaticCallee(); cal != nil && len(cal.Blocks) > 0 {
+								for i, a := range ci.Common().Args {
+									if a == ssa.Value(u) && invokesParam(cal, i) {
+										_, isDefer := ur.(*ssa.Defer)
+										uses = append(uses, handlerUse{ur, isDefer})
+									}
+								}
+							}
 						}
 					}
 				}
@@ -284,6 +336,61 @@ func handlerUses(fn *ssa.Function, start *ssa.Call) []handlerUse {
 	return uses
 }
 
+// invokesParam: the library function cal calls (or defers a call of) its i-th parameter.
+func invokesParam(cal *ssa.Function, i int) bool {
+	if cal == nil || i >= len(cal.Params) {
+		return false
+	}
+	p := cal.Params[i]
+	found := false
+	core.Instrs(cal, func(in ssa.Instruction) {
+		ci, ok := in.(ssa.CallInstruction)
+		if !ok || ci.Common().IsInvoke() {
+			return
+		}
+		for _, o := range core.Origins(ci.Common().Value) {
+			if o == ssa.Value(p) {
+				found = true
+			}
+		}
+	})
+	return found
+}
+
+// startWrappers: library functions unknown to the pinned inventory that call the start handler and hand its finish handler
+// back as their only result without invoking it (the start of the phase extracted into a helper).
+func startWrappers(c *core.Ctx, sfn *ssa.Function) []*ssa.Function {
+	var out []*ssa.Function
+	for _, fn := range c.LibFuncs() {
+		if fn.Parent() != nil || !c.IsFresh(fn) || fn.Signature.Results().Len() != 1 {
+			continue
+		}
+		if _, isFn := fn.Signature.Results().At(0).Type().Underlying().(*types.Signature); !isFn {
+			continue
+		}
+		sites := core.CallsTo(fn, sfn, false)
+		if len(sites) != 1 {
+			continue
+		}
+		start, ok := sites[0].(*ssa.Call)
+		if !ok {
+			continue
+		}
+		forwards := false
+		for _, ret := range core.Returns(fn) {
+			for _, o := range core.Origins(core.RetVal(ret, 0)) {
+				if ex, ok := o.(*ssa.Extract); ok && ex.Tuple == ssa.Value(start) {
+					forwards = true
+				}
+			}
+		}
+		if forwards {
+			out = append(out, fn)
+		}
+	}
+	return out
+}
+
 func closureCallsFreeVar(g *ssa.Function, fv *ssa.FreeVar) bool {
 	found := false
 	core.Instrs(g, func(in ssa.Instruction) {
@@ -293,6 +400,13 @@ func closureCallsFreeVar(g *ssa.Function, fv *ssa.FreeVar) bool {
 		}
 		if u, ok := ci.Common().Value.(*ssa.UnOp); ok && u.Op == token.MUL && u.X == fv {
 			found = true
+		}
+		if cal := ci.Common().StaticCallee(); cal != nil && len(cal.Blocks) > 0 {
+			for i, a := range ci.Common().Args {
+				if u, ok := a.(*ssa.UnOp); ok && u.Op == token.MUL && u.X == ssa.Value(fv) && invokesParam(cal, i) {
+					found = true
+				}
+			}
 		}
 	})
 	return found
@@ -311,8 +425,21 @@ func c17Finish(c *core.Ctx, r *core.Reporter) {
 			continue
 		}
 		nsites := 0
+		wrappers := startWrappers(c, sfn)
+		isWrapper := map[*ssa.Function]bool{}
+		for _, w := range wrappers {
+			isWrapper[w] = true
+		}
 		for _, fn := range c.LibFuncs() {
-			for _, ci := range core.CallsTo(fn, sfn, false) {
+			if isWrapper[fn] {
+				continue // judged at the wrapper's call sites
+			}
+			var sites []ssa.CallInstruction
+			sites = append(sites, core.CallsTo(fn, sfn, false)...)
+			for _, w := range wrappers {
+				sites = append(sites, core.CallsTo(fn, w, false)...)
+			}
+			for _, ci := range sites {
 				start, ok := ci.(*ssa.Call)
 				if !ok {
 					continue
@@ -335,6 +462,12 @@ func c17Finish(c *core.Ctx, r *core.Reporter) {
 					}
 				}
 				reach := core.ReachableAvoiding(start.Block(), cutMinus(cut, start.Block()))
+				// an invocation later in the start's own block lies on every path out of it
+				for _, u := range uses {
+					if u.in.Block() == start.Block() && core.InstrIndex(u.in) > core.InstrIndex(start) {
+						reach = map[*ssa.BasicBlock]bool{}
+					}
+				}
 				var exits []ssa.Instruction
 				for b := range reach {
 					if cut[b] && b != start.Block() {
@@ -541,6 +674,15 @@ func c17Pipeline(c *core.Ctx, r *core.Reporter) {
 	if deferLit != nil {
 		aer := c.Func("", "addExtensionResults")
 		acs := core.CallsTo(deferLit, aer, false)
+		if len(acs) == 0 {
+			// the deferred block's body extracted into a helper: look there
+			for _, ci := range core.CallSites(deferLit) {
+				if cal := ci.Common().StaticCallee(); cal != nil && c.IsLib(cal) && c.IsFresh(cal) && len(core.CallsTo(cal, aer, false)) == 1 {
+					deferLit = cal
+					acs = core.CallsTo(cal, aer, false)
+				}
+			}
+		}
 		var fin ssa.Instruction
 		core.Instrs(deferLit, func(in ssa.Instruction) {
 			if ci, ok := in.(ssa.CallInstruction); ok && !ci.Common().IsInvoke() && ci.Common().StaticCallee() == nil {
